@@ -71,23 +71,24 @@ def make_judges(ctx):
             si = decode_store(ev)
         except Unsupported:
             return
-        if si is None or si.is_complex or not isinstance(si.carrier, int) or isinstance(si.carrier, bool):
+        _seq = isinstance(si.carrier, (list, tuple)) and len(si.carrier) > 0 and all(type(c) is int for c in si.carrier) if si is not None else False
+        if si is None or si.is_complex or not (isinstance(si.carrier, int) or _seq) or isinstance(si.carrier, bool):
             return
+        _car = max(si.carrier, key=abs) if _seq else si.carrier     # (a list / tuple of python integers: judged as a whole, described by its largest element)
         post = si.post or si.pre
         if post is None:
             d = si.init_args or {}
             if ev.exc is not None and isinstance(d.get('n_word'), int) and 1 <= d['n_word'] <= 52 and isinstance(d.get('n_frac'), int) and 0 <= d['n_frac'] <= d['n_word'] + 3 \
                     and d.get('like') is None and d.get('dtype') is None and 'scale' not in d and 'bias' not in d:
-                ctx.violation('store_raises', 'Fxp(%s..., n_word=%d, n_frac=%d) raised %s: %s' % (str(si.carrier)[:24], d['n_word'], d['n_frac'], type(ev.exc).__name__, str(ev.exc)[:100]), ev,
+                ctx.violation('store_raises', 'Fxp(%s..., n_word=%d, n_frac=%d) raised %s: %s' % (str(_car)[:24], d['n_word'], d['n_frac'], type(ev.exc).__name__, str(ev.exc)[:100]), ev,
                               key='store.int_raises')
             return
         if post.scaled or post.is_complex or not (1 <= post.n_word <= 52 and 0 <= post.n_frac <= post.n_word + 3):
             return
-        v = si.values[0]
-        if abs(v * F(2) ** post.n_frac) < 2 ** 62 and abs(v) < 2 ** 53:
+        if all(abs(v * F(2) ** (0 if si.raw else post.n_frac)) < 2 ** 62 and abs(v) < 2 ** 53 for v in si.values):
             return      # C01's own domain
         if ev.exc is not None:
-            ctx.violation('store_raises', 'storing the integer %s... into %s (%s) raised %s: %s' % (str(si.carrier)[:24], R.dtype_fxp(*post.fmt()), post.overflow, type(ev.exc).__name__, str(ev.exc)[:100]), ev,
+            ctx.violation('store_raises', 'storing the integer %s... into %s (%s) raised %s: %s' % (str(_car)[:24], R.dtype_fxp(*post.fmt()), post.overflow, type(ev.exc).__name__, str(ev.exc)[:100]), ev,
                           key='store.int_raises')
             return
         try:
@@ -97,14 +98,14 @@ def make_judges(ctx):
             return
         if si.post.codes != codes:
             i = next((i for i, (a, b) in enumerate(zip(si.post.codes, codes)) if a != b), 0)
-            ctx.violation('store_code', '%s %s via %s: integer %s... stored as %r, exact quantization gives %d' % (R.dtype_fxp(*post.fmt()), post.overflow, si.route, str(si.carrier)[:30],
+            ctx.violation('store_code', '%s %s via %s: integer %s... stored as %r, exact quantization gives %d' % (R.dtype_fxp(*post.fmt()), post.overflow, si.route, str(_car)[:30],
                           si.post.codes[i], codes[i]), ev)
         elif not si.post.ints_ok:
             ctx.violation('code_type', 'stored code of type %s' % si.post.bad_type, ev)
-        bl = abs(si.carrier).bit_length() + post.n_frac
+        bl = abs(_car).bit_length() + post.n_frac
         mag = '62..63' if bl <= 63 else ('64' if bl <= 64 else ('65..128' if bl <= 128 else '>128'))
-        ctx.judged(('store', si.route, post.overflow, mag, si.carrier < 0), True,
-                   {'op': ev.op, 'format': R.dtype_fxp(*post.fmt()), 'overflow': post.overflow, 'input_bits': abs(si.carrier).bit_length(), 'stored': str(si.post.codes[:2])} if ctx.want_sample() else None)
+        ctx.judged(('store', si.route, post.overflow, mag, _car < 0), True,
+                   {'op': ev.op, 'format': R.dtype_fxp(*post.fmt()), 'overflow': post.overflow, 'input_bits': abs(_car).bit_length(), 'stored': str(si.post.codes[:2])} if ctx.want_sample() else None)
         ctx.floor_hit(('store', si.route, post.overflow))
     return [arith_judge, bigint_store_judge]
 
@@ -112,6 +113,7 @@ def make_judges(ctx):
 def floors(tier):
     cells = [(op, wc) for op in ('add', 'sub', 'mul') for wc in ('both>=64', 'one>=64', 'both<64->>=64', 'both<64->54..63', 'mixed>2^53')]
     cells += [('store', r, o) for r in ('constructor', 'call', 'set_val', 'setitem') for o in ('saturate', 'wrap')]
+    cells += [('usable_after_store', t) for t in ('element', 'scalar')]
     return cells
 
 
@@ -248,3 +250,27 @@ def run_case(case, ctx):
     a = Fxp(np.zeros(2), s, w, nf, overflow=o, rounding=r)
     _try(lambda: a.__setitem__(1, v))
     _try(lambda: a.set_val(v, index=0))
+    # ... and into an element taken out of an array / into a scalar object through the empty index and the ellipsis; whatever the magnitude
+    # of the input, the object written into stays usable afterwards (conversions, shape) and a list of integers from 2^63 on is not taken
+    # for negative codes
+    for tgt, idx in (('element', Ellipsis), ('element', ()), ('scalar', Ellipsis), ('scalar', ())):
+        try:
+            e = a[0] if tgt == 'element' else Fxp(0, s, w, nf, overflow=o, rounding=r)
+        except Exception:
+            continue
+        _try(lambda: e.__setitem__(idx, v))
+        probs = []
+        for name, f in (('int()', lambda: int(e)), ('float()', lambda: float(e)), ('bool()', lambda: bool(e)), ('shape', lambda: e.shape), ('get_val()', lambda: e.get_val()), ('raw()', lambda: e.raw())):
+            try:
+                f()
+            except Exception as ex:     # noqa
+                probs.append('%s raises %s: %s' % (name, type(ex).__name__, str(ex)[:80]))
+        if probs:
+            ctx.violation('unusable_after_store', '%s of %s written by [%s] with a python integer of %d bits: %s' % (
+                tgt, R.dtype_fxp(s, w, nf), '...' if idx is Ellipsis else '()', abs(v).bit_length(), '; '.join(probs)), key='store.unusable_after')
+        ctx.judged(('usable-after-store', tgt, idx is Ellipsis), True, None)
+        ctx.floor_hit(('usable_after_store', tgt))
+    if abs(v) >= 2 ** 63 and v > 0:
+        for car in ([v], (v, v + 1), [v, 2 ** 63 + 7]):
+            _try(lambda: Fxp(car, s, w, nf, overflow=o, rounding=r, raw=True))
+            _try(lambda: Fxp(car, s, w, nf, overflow=o, rounding=r))
